@@ -38,6 +38,9 @@ RULE += (
          'refused data, compared between the builds), try channels '
          'rendering error_value, refused data in id / repr of the '
          'objects. ')
+RULE += (
+         'Slices in expressions; the harness guard refuses slices '
+         'covering a refused element. ')
 ASSUMPTIONS = [
     'the guard is the documented extension point: guarded_getattr / '
     'guarded_getitem supplied by the template class',
